@@ -119,11 +119,89 @@ def correspondence(ctx):
                                     first_events=out.splitlines()[:12]))
         if sum(1 for p in ctx.problems if p["kind"] in ("propfail", "hang", "sanitizer")) >= 3:
             break
+    real_mpi(ctx, big)
+
+
+def real_mpi(ctx, big):
+    """The same properties observed on the REAL Boost.MPI/OpenMPI stack (mpiexec), with hook-seeded job delays:
+    validates the MPI semantics encoded in the mock and in the model against the genuine runtime."""
+    import tempfile
+    exe = pmlib.build_harness("disp_mpi", link_lib=True)
+    r = ctx.rng
+    cases = []
+    for P in ([2, 3] if not big else [2, 3, 4, 5, 8]):
+        for _ in range(2 if not big else 6):
+            rounds = []
+            for _ in range(r.range(1, 3)):
+                kind = r.below(5)
+                J = 0 if kind == 0 else (r.range(1, max(1, P - 1)) if kind == 1 else r.range(1, 12))
+                rounds.append([r.range(1, 9) for _ in range(J)])
+            cases.append((P, rounds, r.below(1 << 30)))
+    for (P, rounds, dseed) in cases:
+        case = dict(P=P, rounds=rounds, delay_seed=dseed, real_mpi=True)
+        with tempfile.TemporaryDirectory(prefix="dispmpi") as d:
+            rf = os.path.join(d, "rounds.txt")
+            with open(rf, "w") as f:
+                f.write("\n".join(" ".join(map(str, c)) if c else "none" for c in rounds) + "\n")
+            rc, out, err = pmlib.run_harness(exe, [rf, os.path.join(d, "out")], timeout=120, mpi_np=P,
+                                             env={"POMEROL_VERIF_DELAY_SEED": str(dseed)})
+            ctx.evaluations += 1
+            ctx.count("real_mpi_runs")
+            if rc == -999:
+                ctx.problem("hang", "PROPFAIL real mpiexec -np %d: the dispatch did not terminate" % P, case=case, signature="dispmpi-hang")
+                continue
+            if rc != 0:
+                ctx.problem("sanitizer", "real mpiexec -np %d run failed: %s" % (P, pmlib.sanitizer_report(err) or "exit %s" % rc),
+                            case=case, log=err[-2000:], signature="dispmpi-abort")
+                continue
+            ranks = []
+            for k in range(P):
+                fn = os.path.join(d, "out.%d" % k)
+                ranks.append(open(fn).read().splitlines() if os.path.exists(fn) else [])
+        bad = None
+        if any((not t) or t[-1] != "end" for t in ranks):
+            bad = "not every rank returned from all rounds"
+        else:
+            for k, comp in enumerate(rounds):
+                J = len(comp)
+                runs, maps = [], []
+                for t in ranks:
+                    a = t.index("round %d %d" % (k, J))
+                    b = next(i for i in range(a + 1, len(t)) if t[i].startswith("m"))
+                    runs += [tuple(map(int, l.split()[1:])) for l in t[a + 1:b] if l.startswith("r ")]
+                    mm = list(map(int, t[b].split()[1:]))
+                    maps.append(dict(zip(mm[0::2], mm[1::2])))
+                for j in range(J):
+                    who = [rk for (rk, jj) in runs if jj == j]
+                    if len(who) != 1:
+                        bad = "round %d: job %d executed %d times" % (k, j, len(who))
+                    elif any(m.get(j) != who[0] for m in maps):
+                        bad = "round %d: job %d ran on rank %d, maps say %s" % (k, j, who[0], [m.get(j) for m in maps])
+                if any(len(m) != J for m in maps) or any(m != maps[0] for m in maps):
+                    bad = bad or "round %d: returned maps differ between ranks or have the wrong size" % k
+                if len(set(rk for rk, _ in runs)) > 1:
+                    ctx.distinct.add((P, tuple(map(tuple, rounds)), dseed))
+        if bad:
+            ctx.problem("propfail", "PROPFAIL real mpiexec -np %d: %s" % (P, bad), case=case, signature="dispmpi-" + bad.split(":")[-1][:30])
 
 
 def replay(ctx, rp):
-    exe = harness()
     c = rp["case"]
+    if c.get("real_mpi"):
+        import tempfile
+        exe = pmlib.build_harness("disp_mpi", link_lib=True)
+        with tempfile.TemporaryDirectory(prefix="dispmpi") as d:
+            rf = os.path.join(d, "rounds.txt")
+            with open(rf, "w") as f:
+                f.write("\n".join(" ".join(map(str, x)) if x else "none" for x in c["rounds"]) + "\n")
+            rc, out, err = pmlib.run_harness(exe, [rf, os.path.join(d, "out")], timeout=120, mpi_np=c["P"],
+                                             env={"POMEROL_VERIF_DELAY_SEED": str(c["delay_seed"])})
+            print("rc", rc)
+            for k in range(c["P"]):
+                fn = os.path.join(d, "out.%d" % k)
+                print("rank", k, open(fn).read() if os.path.exists(fn) else "(no output)")
+        return 1 if rc != 0 else 0
+    exe = harness()
     rc, out, err, stdin = run_case(exe, c["P"], c["rounds"], c["sched_seed"], tuple(c["see"]))
     print(out[-3000:])
     rc2, dout = pmlib.run_driver("disp", "P %d\n%s" % (c["P"], out))
